@@ -5,6 +5,7 @@ package main
 
 import (
 	"fmt"
+	"os"
 	"sort"
 	"sync"
 	"go/token"
@@ -1368,6 +1369,9 @@ func (p *Path) deepEqual(a, b Value, depth int) *Term {
 		for i := 0; i < st.NumFields(); i++ {
 			c := p.deepEqual(x.field(i), y.field(i), depth+1)
 			if v, ok := c.constBool(); ok && !v {
+				if os.Getenv("GOSYM_DEBUG_EQ") != "" {
+					fmt.Fprintf(os.Stderr, "deepEqual: field %s of %v differs (%s vs %s)\n", st.Field(i).Name(), x.t, describe(x.field(i)), describe(y.field(i)))
+				}
 				return tFalse
 			}
 			cs = append(cs, c)
